@@ -204,7 +204,7 @@ func cmdSim(args []string) int {
 		ts.steps = *steps
 	}
 	if *evPath == "" {
-		*evPath = fmt.Sprintf("%s/evidence/%s.json", verifDir(), *prop)
+		*evPath = fmt.Sprintf("%s/%s.json", evidenceDir(), *prop)
 	}
 	os.MkdirAll(*replays, 0o755)
 	t0 := time.Now()
